@@ -30,7 +30,7 @@ impl Monitor for C11 {
         if tier == Tier::Sanitizer {
             vec!["joined"]
         } else {
-            vec!["joined", "no_join_accept", "join_request_ok", "joined_in_rx2", "joined_after_corrupt_copy", "rejoin_from_joined", "cflist_type0_applied", "cflist_zero_entry_withdraws", "cflist_invalid_freq_ignored", "rx2dr_ignored", "rx1off_ignored", "first_uplink_ok", "send_unjoined_refused"]
+            vec!["joined", "no_join_accept", "join_request_ok", "joined_in_rx2", "joined_after_corrupt_copy", "rejoin_from_joined", "cflist_type0_applied", "cflist_zero_entry_withdraws", "cflist_invalid_freq_ignored", "rx2dr_ignored", "rx1off_ignored", "first_uplink_ok", "send_unjoined_refused", "credentials_changed_between_attempts"]
         }
     }
 
@@ -157,7 +157,7 @@ fn cf_wire(c: &Cf) -> Option<[u8; 16]> {
 }
 
 fn join_case(front: Front, reg: Reg, dl_fixed: Option<u8>, rng: &mut Prng, col: &mut Collector) {
-    let creds = default_creds(rng);
+    let mut creds = default_creds(rng);
     let bias = if reg.fixed() && rng.chance(1, 3) { Some((rng.range(1, 8) as u8, rng.range(1, 3) as usize)) } else { None };
     let opts = DevOpts { rng_seed: Some(rng.next_u64()), bias, ..Default::default() };
     let mut dev: Dev = Dev::new(front, reg, creds.clone(), &opts);
@@ -172,6 +172,13 @@ fn join_case(front: Front, reg: Reg, dl_fixed: Option<u8>, rng: &mut Prng, col: 
     for round in 0..rounds {
         attempt += 1;
         let give_accept = round >= failed_first;
+        // now and then the application joins with other credentials than in the attempt before
+        // (whether that one failed or succeeded): the request carries what is configured now
+        if round > 0 && dl_fixed.is_none() && rng.chance(1, 4) {
+            creds = default_creds(rng);
+            dev.creds = creds.clone();
+            col.event("credentials_changed_between_attempts");
+        }
         // ---- the accept the network will (maybe) send ------------------------------------------
         let dl = dl_fixed.unwrap_or_else(|| if rng.chance(1, 2) { rng.u8() } else { (rng.below(8) as u8) << 4 | *rng.pick(&[0u8, 1, 2, 3, 4, 5, 8, 9, 10, 13]) });
         let rxd = if rng.chance(1, 4) { rng.u8() } else { rng.below(16) as u8 };
